@@ -585,6 +585,80 @@ def dao_kwargs(prog: Program) -> RuleResult:
     return r
 
 
+def dao_partition(prog: Program) -> RuleResult:
+    """A DAO that inherits from an alternatively mapped DAO fills the parent's relationships from the mapping instance and all the others
+    from the object. "All the others" is the complement: every relationship of the child's mapper that is not one of the parent's - also
+    those an intermediate class declares (the child's mapper lists them, SQLAlchemy says their owner is the intermediate mapper). The second
+    part is derived from `child.relationships` by one criterion only: not being among the parent's."""
+    r = RuleResult("DAO-PARTITION", "the relationships of an inherited DAO are split into the parent's and the complement", floor=1)
+    dao = prog.cls(DAO + ".DataAccessObject")
+    f = prog.lookup(dao.qual, "partition_parent_child_relationships")
+    if f is None or len(f.params) < 3:
+        raise AnalysisError("DAO-PARTITION: DataAccessObject.partition_parent_child_relationships(self, parent, child) vanished")
+    parent, child = f.params[1], f.params[2]
+    single = {}
+    for x in walk_local(f.node):
+        if isinstance(x, ast.Assign) and len(x.targets) == 1 and isinstance(x.targets[0], ast.Name):
+            single.setdefault(x.targets[0].id, []).append(x.value)
+
+    def expand(e, depth=0):
+        """the expression with single-assignment locals replaced (as a list of all expressions it is built from)"""
+        out = [e]
+        if depth > 4:
+            return out
+        for y in ast.walk(e):
+            if isinstance(y, ast.Name) and len(single.get(y.id, [])) == 1:
+                out += expand(single[y.id][0], depth + 1)
+        return out
+
+    rets = [x.value for x in walk_local(f.node) if isinstance(x, ast.Return) and isinstance(x.value, ast.Tuple) and len(x.value.elts) == 2]
+    if not rets:
+        raise AnalysisError("DAO-PARTITION: partition_parent_child_relationships does not return a pair")
+    first, second = rets[0].elts
+    from_parent = lambda e: any(src(z) == f"{parent}.relationships" for y in expand(e) for z in ast.walk(y))
+    from_child = lambda e: any(src(z) == f"{child}.relationships" for y in expand(e) for z in ast.walk(y))
+    r.check(from_parent(first) and not from_child(first), "partition#parent-part", site(f), src(first), "the first part is the parent's relationships",
+            "the first part is not the parent mapper's relationships")
+    # the conditions that select the second part
+    conds = []
+    for y in expand(second):
+        for z in ast.walk(y):
+            if isinstance(z, (ast.ListComp, ast.GeneratorExp, ast.SetComp)):
+                conds += [i for g in z.generators for i in g.ifs]
+            if isinstance(z, ast.Call) and call_name(z) == "filter" and z.args:
+                fn = z.args[0]
+                conds.append(fn.body if isinstance(fn, ast.Lambda) else fn)
+    def complement(c) -> bool:
+        if isinstance(c, ast.UnaryOp) and isinstance(c.op, ast.Not) and isinstance(c.operand, ast.Compare) and len(c.operand.ops) == 1 and isinstance(c.operand.ops[0], ast.In):
+            return from_parent(c.operand.comparators[0])
+        return isinstance(c, ast.Compare) and len(c.ops) == 1 and isinstance(c.ops[0], ast.NotIn) and from_parent(c.comparators[0])
+    ok = from_child(second) and bool(conds) and all(complement(c) for c in conds)
+    bad = next((c for c in conds if not complement(c)), None)
+    r.check(ok, "partition#child-part-is-the-complement", site(f, bad) if bad is not None else site(f), src(bad)[:80] if bad is not None else src(second)[:80],
+            "the second part is every relationship of the child's mapper that is not among the parent's",
+            f"the second part is selected by {src(bad)[:60] if bad is not None else 'something else than the complement'}: a relationship that an intermediate class declares (Car.engine "
+            "for SportsCar(Car(Vehicle)) with Vehicle alternatively mapped) is in neither part, to_dao leaves it unset and the round trip gives None / []")
+    return r
+
+
+def dao_container(prog: Program) -> RuleResult:
+    """'Collections with the same elements in the same order' and 'equal field values': the kind of collection a field declares has to survive
+    the round trip. The reader rebuilds a collection as `type(<the DAO's collection>)(...)`, so the kind is whatever the generated
+    relationship gives the DAO - and the generator has to derive that from the field's declared container (as it does for collections of
+    builtins, stored as JSON). A generator that declares every collection relationship a List turns a Set[...] field into a list."""
+    r = RuleResult("DAO-CONTAINER", "the declared container type of a collection of mapped objects survives the round trip", floor=1)
+    wt = prog.cls("wrapped_table.WrappedTable")
+    f = prog.lookup(wt.qual, "create_one_to_many_relationship")
+    if f is None:
+        raise AnalysisError("DAO-CONTAINER: WrappedTable.create_one_to_many_relationship vanished")
+    consults = any(isinstance(x, ast.Attribute) and x.attr in ("container_type", "collection_class") for x in walk_local(f.node)) or any(
+        isinstance(x, ast.Constant) and isinstance(x.value, str) and "collection_class" in x.value for x in walk_local(f.node))
+    r.check(consults, "WrappedTable.create_one_to_many_relationship#container-type", site(f), "", "the relationship is declared with the field's own container type",
+            "every collection relationship is generated as Mapped[List[...]] whatever the field declares: the DAO holds a list, from_dao rebuilds `type(value)(...)` = a list, and a "
+            "field declared Set[Tag] comes back as a list (not equal to the set it was)")
+    return r
+
+
 def _opt_truth(prog):
     # the conversion states are passed down optionally; `state or State()` must only ever replace None
     from .opttruth import opt_truth
@@ -599,5 +673,12 @@ def _shared_default(prog):
     return shared_default(prog, ["ormatic.dao"], 30)
 
 
+def _exact_dao(prog):
+    # 'same concrete classes': an object of a class without a DAO of its own must not be stored as an instance of its mapped base
+    from .c07 import sql_exact_dao
+
+    return sql_exact_dao(prog)
+
+
 def run(prog: Program, tier: str) -> List[RuleResult]:
-    return [idkey(prog), dao_order(prog), dao_direction(prog), dao_collect(prog), dao_window(prog), dao_value_truth(prog), dao_fresh(prog), _opt_truth(prog), _shared_default(prog), dao_args(prog), dao_kwargs(prog)]
+    return [idkey(prog), dao_order(prog), dao_direction(prog), dao_collect(prog), dao_window(prog), dao_value_truth(prog), dao_fresh(prog), _opt_truth(prog), _shared_default(prog), dao_args(prog), dao_kwargs(prog), dao_partition(prog), _exact_dao(prog), dao_container(prog)]
